@@ -36,11 +36,20 @@ func Hex(b []byte) string { return hex.EncodeToString(b) }
 // Encode renders a value.  Unknown object kinds are opaque (type name + identity).
 func Encode(o ugo.Object, ids *Ids) string {
 	var sb strings.Builder
-	enc(&sb, o, ids)
+	enc(&sb, o, ids, 0)
 	return sb.String()
 }
 
-func enc(sb *strings.Builder, o ugo.Object, ids *Ids) {
+// Cyclic marks a value nested deeper than maxDepth: a script can build a cyclic value
+// (`a[0] = a`), which has no finite rendering; streams skip outcomes containing the marker.
+const Cyclic = "!cyclic!"
+const maxDepth = 200
+
+func enc(sb *strings.Builder, o ugo.Object, ids *Ids, depth int) {
+	if depth > maxDepth || sb.Len() > 16<<20 {
+		sb.WriteString(Cyclic)
+		return
+	}
 	switch v := o.(type) {
 	case nil:
 		sb.WriteString("onil:0")
@@ -74,7 +83,7 @@ func enc(sb *strings.Builder, o ugo.Object, ids *Ids) {
 			if i > 0 {
 				sb.WriteByte(' ')
 			}
-			enc(sb, x, ids)
+			enc(sb, x, ids, depth+1)
 		}
 		sb.WriteString(")")
 	case ugo.Map:
@@ -89,7 +98,7 @@ func enc(sb *strings.Builder, o ugo.Object, ids *Ids) {
 				sb.WriteByte(' ')
 			}
 			sb.WriteString(Hex([]byte(k)) + "=")
-			enc(sb, v[k], ids)
+			enc(sb, v[k], ids, depth+1)
 		}
 		sb.WriteString(")")
 	default:
